@@ -554,11 +554,24 @@ def expr_slice(pid, cfg, tier, seed, workdir, rep, stats, findings):
     known = {f["shape"]: f["id"] for f in findings if f["status"] == "known" and f.get("shape")}
     n = cfg[tier]
     cases = []
-    for i in range(n):
+    # whole numbers beyond 2**53 (serial numbers): literals and engine values are exact integers;
+    # comparisons only, so that no float arithmetic is involved
+    from fractions import Fraction
+    big = 9007199254740993
+    fixed = []
+    for op in ("==", "!=", "<", ">=", "<=", ">"):
+        for lit in (big, big - 1):
+            for v in (big - 1, big, big + 1):
+                fixed.append(([("path", "d", [("f", "count")]), op, ("num", Fraction(lit))],
+                              {"*": {"count": Fraction(v), "ratio": Fraction(1), "n": Fraction(3), "flag": True, "ok": False}}))
+    for i in range(n + len(fixed)):
         rng = random.Random("%d/%s/expr/%d" % (seed, pid, i))
-        toks = gen_expr.gen_tokens_bool(rng, rng.randint(0, 2))
+        if i >= n:
+            toks, val = fixed[i - n]
+        else:
+            toks = gen_expr.gen_tokens_bool(rng, rng.randint(0, 2))
+            val = gen_expr.gen_valuation(rng)
         text = gen_expr.tokens_text(toks)
-        val = gen_expr.gen_valuation(rng)
         stats["generated"] += 1
         dec, tree, note = expr_run_impl(text, val)
         if dec is None:
